@@ -38,7 +38,8 @@ Definition pinned : list string := [
   "packet.DialogClear"; "chat.ChatAcknowledgement"; "chat.LegacyChat"; "chat.UnsignedPlayerCommand";
   "cookie.CookieRequest"; "cookie.CookieResponse"; "cookie.CookieStore";
   "config.ActiveFeatures"; "config.FinishedUpdate"; "config.StartUpdate"; "config.RegistrySync";
-  "config.CodeOfConductPacket"; "config.CodeOfConductAcceptPacket"; "title.Times"
+  "config.CodeOfConductPacket"; "config.CodeOfConductAcceptPacket"; "title.Times";
+  "plugin.Message"; "config.KnownPacks"; "packet.ServerLoginSuccess"; "playerinfo.Remove"
 ].
 
 Definition fragment_names : list string := map entry_name (filter is_fragment packets).
